@@ -120,8 +120,9 @@ pub fn c04_c05(prop: &str, seed: u64, budget: usize) -> Report {
                 (2, _) | (3, _) => [r.unit(), r.unit(), r.unit()],
                 (4, "C04") => [r.range(0.0, 4.0), r.range(0.0, 4.0), r.range(0.0, 4.0)],
                 (5, "C04") => [r.range(-1.0, 4.0), r.range(-1.0, 4.0), r.range(-1.0, 4.0)],
+                (6, "C04") => { let v = if i % 16 == 6 { r.unit() } else { r.range(-1.0, 4.0) }; match (i / 16) % 4 { 0 | 1 => [v, v, v], 2 => [v, v, r.range(-1.0, 4.0)], _ => [r.range(-1.0, 4.0), v, v] } }
                 (6, _) => { let v = r.unit(); [v, v, v] }
-                _ => { let c = if prop == "C04" { vec![0.0f32, 1.0, 4.0, 0.5] } else { vec![0.0f32, 1.0, 0.5] }; [*r.pick(&c), *r.pick(&c), *r.pick(&c)] }
+                _ => { let c = if prop == "C04" { vec![0.0f32, 1.0, 4.0, 0.5, -1.0, -0.5, -0.01, -0.1] } else { vec![0.0f32, 1.0, 0.5] }; [*r.pick(&c), *r.pick(&c), *r.pick(&c)] }
             });
         }
         let xyb = Xyb::from(LinearRgb::new(px.clone(), px.len(), 1).unwrap());
